@@ -95,7 +95,7 @@ theorem C11_late (hack : Bool) (f : Flow) (hh : f.holder = .recvResponse) (ha : 
     (h : Head) (hw : h.wf) (hf : h.fields = []) (hc : h.codeVal = 100) (rest : Bytes) :
     stepRecvResponse hack f (.resp (h.enc ++ rest)) = ({ f with await100 := false }, .resp h.enc.length none) := by
   have hp := C05_exact h hw 128 (by simp [hf]) (by omega) (by intro g hg; simp [hf] at hg) rest
-  unfold stepRecvResponse callTryResponse
+  unfold stepRecvResponse callTryResponse parseWithFallback
   simp [hh, hp, hc, hf, fieldsOf, ha]
 
 /-- non-vacuity: the bare `HTTP/1.1 100 Continue` head -/
